@@ -193,7 +193,14 @@ let process_t (c : tcase) =
    | [] -> ());
   (match red with
    | p :: rest ->
-     if not (local_ok beq_idev (as_perm_of beq_idev rd (cat_res red)) p rest) then begin
+     (* C16: "whether a device counts as a keyboard depends only on that device's own entry" - the verdict per device.
+        Which NON-keyboard devices the --dev-file listing carries along (an entry without a key map, a second entry with the
+        same sysfs path) is not fixed by the property: the keyboards of the whole text are the keyboards of the entries *)
+     let kb_only (r : idev list res) = (match r with Ok l -> Ok (List.filter is_kbd l) | Panic s -> Panic s) in
+     let rd_k = kb_only rd and red_k = List.map kb_only red in
+     let (pk, restk) = (match red_k with a :: b -> (a, b) | [] -> (p, rest)) in
+     if not (local_ok beq_idev (as_perm_of beq_idev rd (cat_res red)) p rest)
+        && not (local_ok beq_idev (as_perm_of beq_idev rd_k (cat_res red_k)) pk restk) then begin
        incr n_hits;
        Printf.printf "HIT clause=C16.local.dev id=%s family=%s text=%s observed=%s expected=%s\n" c.id c.family c.text_hex (enc_d rd) (enc_d (cat_res red))
      end
